@@ -58,6 +58,16 @@ CLAIMED = {
             "against QuotaFitTrace.",
             "Hook H1 (add-only, guarded by MLINSIGHTS_VERIF) reports decisions after the state change; the open finding "
             "'swap-exhaustion' of strategy 'gain' is listed in known_findings.json and re-run on its recorded inputs."),
+    "C17": ("DESIGN 4/C17",
+            "TLA+ spec Bootstrap (index requests, training triples, aggregation over recording models): TLC model "
+            "checking incl. a negative run reproducing the excluded last row + trace validation of every "
+            "randint call / base-estimator fit / prediction",
+            "TLC checks EligibleAll, SizeExact, alignment and min<=mean<=max for every draw in the bound; seeded fits are "
+            "run with numpy.random.randint wrapped and a recording base regressor, and every draw, every fit (rows, "
+            "targets and weights kept together, consumed against a pending draw) and every predict_all / predict / "
+            "predict_sorted row is an event validated by BootstrapTrace.",
+            "alpha dyadic; rounding is the code's int(n*alpha+0.5); thread schedules (n_jobs>1) are observed as they "
+            "happen, fits are matched to draws by content."),
 }
 
 PENDING_REASON = "check not built yet in this round (planned: see DESIGN.md section 4); not claimed until it runs"
